@@ -412,15 +412,62 @@ func ruleMDSCAF(c *Ctx) []Obligation {
 	for _, n := range c.mdNodeTypes() {
 		isNode[n] = true
 	}
+	isScafIface := func(t types.Type) bool {
+		nn := namedOf(t)
+		return nn != nil && nn.Obj().Pkg() != nil && nn.Obj().Pkg().Path() == pkgMD && types.IsInterface(t)
+	}
+	// target helpers: functions of the package that are handed the scaffold parameter of a translator and
+	// return the node type (tuple := mdTupleTarget(new)); their parameter may have any name
+	scafHelper := map[*types.Func]*types.Var{}
+	c.eachFunc(pkgASM, func(p *packages.Package, fd *ast.FuncDecl, fn *types.Func) {
+		info := p.TypesInfo
+		sig := fn.Type().(*types.Signature)
+		var np *types.Var
+		for i := 0; i < sig.Params().Len(); i++ {
+			if pv := sig.Params().At(i); isScafIface(pv.Type()) && pv.Name() == "new" {
+				np = pv
+			}
+		}
+		if np == nil || sig.Results().Len() < 1 {
+			return
+		}
+		res := isIRStructPtr(c, sig.Results().At(0).Type())
+		if res == nil || !isNode[res] {
+			return
+		}
+		ast.Inspect(fd.Body, func(nd ast.Node) bool {
+			call, ok := nd.(*ast.CallExpr)
+			if !ok {
+				return true
+			}
+			h := calleeOf(info, call)
+			if h == nil || h.Pkg() == nil || h.Pkg().Path() != pkgASM || h == fn {
+				return true
+			}
+			hs := h.Type().(*types.Signature)
+			if hs.Results().Len() < 1 || isIRStructPtr(c, hs.Results().At(0).Type()) != res {
+				return true
+			}
+			for i, a := range call.Args {
+				if id, ok := unparen(a).(*ast.Ident); ok && info.ObjectOf(id) == types.Object(np) && i < hs.Params().Len() && isScafIface(hs.Params().At(i).Type()) {
+					scafHelper[h] = hs.Params().At(i)
+				}
+			}
+			return true
+		})
+	})
 	c.eachFunc(pkgASM, func(p *packages.Package, fd *ast.FuncDecl, fn *types.Func) {
 		info := p.TypesInfo
 		sig := fn.Type().(*types.Signature)
 		var newParam *types.Var
 		for i := 0; i < sig.Params().Len(); i++ {
 			pv := sig.Params().At(i)
-			if nn := namedOf(pv.Type()); nn != nil && nn.Obj().Pkg() != nil && nn.Obj().Pkg().Path() == pkgMD && types.IsInterface(pv.Type()) && pv.Name() == "new" {
+			if isScafIface(pv.Type()) && pv.Name() == "new" {
 				newParam = pv
 			}
+		}
+		if hp := scafHelper[fn]; hp != nil {
+			newParam = hp
 		}
 		if newParam == nil || sig.Results().Len() < 1 {
 			return
@@ -484,6 +531,15 @@ func ruleMDSCAF(c *Ctx) []Obligation {
 					return true
 				}
 				switch r := unparen(as.Rhs[0]).(type) {
+				case *ast.CallExpr:
+					// tuple := mdTupleTarget(new): the helper asserts or allocates (it is judged on its own)
+					if h := calleeOf(info, r); h != nil && scafHelper[h] != nil {
+						for _, a := range r.Args {
+							if aid, ok := unparen(a).(*ast.Ident); ok && info.ObjectOf(aid) == types.Object(newParam) {
+								asserted = info.ObjectOf(id)
+							}
+						}
+					}
 				case *ast.TypeAssertExpr:
 					if r.Type != nil && exprString(r.X) == newParam.Name() && namedOf(info.TypeOf(r.Type)) == res {
 						asserted = info.ObjectOf(id)
@@ -532,6 +588,9 @@ func ruleMDSCAF(c *Ctx) []Obligation {
 					return false
 				}
 				ast.Inspect(fd.Body, func(nd ast.Node) bool {
+					if _, ok := nd.(*ast.FuncLit); ok {
+						return false // a closure's returns are its own
+					}
 					if r, ok := nd.(*ast.ReturnStmt); ok && len(r.Results) >= 1 && exprString(r.Results[0]) != "nil" {
 						got := origin(r.Results[0])
 						want := asserted
@@ -847,6 +906,30 @@ func ruleMDASSIGN(c *Ctx) []Obligation {
 		})
 		return true
 	})
+	// the set handed to a helper object: &alloc{used: used} / a.used = used make the field an alias
+	usedAlias := map[types.Object]bool{}
+	if used != nil {
+		usedAlias[used] = true
+		ast.Inspect(fd.Body, func(nd ast.Node) bool {
+			switch x := nd.(type) {
+			case *ast.KeyValueExpr:
+				if k, ok := x.Key.(*ast.Ident); ok && setObj(x.Value) == used {
+					if fo := info.ObjectOf(k); fo != nil {
+						usedAlias[fo] = true
+					}
+				}
+			case *ast.AssignStmt:
+				for i, l := range x.Lhs {
+					if i < len(x.Rhs) && setObj(x.Rhs[i]) == used {
+						if fo := setObj(l); fo != nil {
+							usedAlias[fo] = true
+						}
+					}
+				}
+			}
+			return true
+		})
+	}
 	if used != nil {
 		// bodies in which the generator may live: this function (with its closures) and the
 		// functions of the package it calls that mention the set (a method of the helper object)
@@ -857,7 +940,7 @@ func ruleMDASSIGN(c *Ctx) []Obligation {
 					if gfd := c.funcDecl(g); gfd != nil && gfd.Body != nil && gfd != fd {
 						mentions := false
 						ast.Inspect(gfd.Body, func(m ast.Node) bool {
-							if e, ok := m.(ast.Expr); ok && setObj(e) == used {
+							if e, ok := m.(ast.Expr); ok && usedAlias[setObj(e)] {
 								mentions = true
 							}
 							return true
@@ -882,7 +965,7 @@ func ruleMDASSIGN(c *Ctx) []Obligation {
 				ast.Inspect(fs, func(m ast.Node) bool {
 					switch x := m.(type) {
 					case *ast.IndexExpr:
-						if setObj(x.X) == used {
+						if usedAlias[setObj(x.X)] {
 							looks = true
 						}
 					case *ast.IncDecStmt:
